@@ -1,9 +1,342 @@
-/- C08 — executable model (core Lean only).  Stub. -/
+/-
+C08 — model of the alternative arc specifications (mechanism (c) of DESIGN.md):
+
+* `functions.divide_arc(count=1)` / `arc_mid`                         → `arcMid`
+* `items/edges/arcs/origin.py  arc_from_origin` (with centre adjustment) → `originArc`
+* `items/edges/arcs/angle.py   arc_from_theta` (as repaired)          → `thetaCentre`, `thetaMid`
+* `functions.arc_length_3point`                                       → `arc3Centre`, `arc3Exterior`, `arc3`
+* `functions.polyline_length`                                         → `polyLen`
+
+The formulas are written once, generically over a type `K` that only needs the arithmetic
+operations (core Lean classes, no Mathlib), so that the theorems of `CBV.Props.C08` hold over every
+linearly ordered field (ℝ included) and the driver executes the very same definitions over `Rat`.
+Every `sqrt` of the code is an argument here (a *witness* `w` for `sqrt x`, i.e. `0 ≤ w`, `w*w = x`);
+the driver receives float witnesses from the harness and checks them with an explicit tolerance.
+`1/tan(θ/2)` is written `c/s` with `(c, s) = (cos θ/2, sin θ/2)`; `acos` is an opaque `Float` step.
+Core Lean only.
+-/
 import CBV.Model.Common
 import CBV.Gen.Tables
 
 namespace CBV.C08
 
-def handle (_op : String) (_args : List String) : Option String := none
+/-- three-vectors over any scalar type -/
+structure Vec (K : Type) where
+  x : K
+  y : K
+  z : K
+  deriving DecidableEq, Repr
+
+namespace Vec
+variable {K : Type} [Add K] [Sub K] [Mul K]
+def add (a b : Vec K) : Vec K := ⟨a.x + b.x, a.y + b.y, a.z + b.z⟩
+def sub (a b : Vec K) : Vec K := ⟨a.x - b.x, a.y - b.y, a.z - b.z⟩
+def smul (k : K) (a : Vec K) : Vec K := ⟨k * a.x, k * a.y, k * a.z⟩
+def dot (a b : Vec K) : K := a.x * b.x + a.y * b.y + a.z * b.z
+def cross (a b : Vec K) : Vec K := ⟨a.y * b.z - a.z * b.y, a.z * b.x - a.x * b.z, a.x * b.y - a.y * b.x⟩
+def nsq (a : Vec K) : K := dot a a
+end Vec
+
+open Vec
+
+section formulas
+variable {K : Type} [Add K] [Sub K] [Mul K] [Div K] [Neg K] [OfNat K 0] [OfNat K 1] [OfNat K 2]
+
+/-- `(p1 + p2) / 2` -/
+def midPoint (p1 p2 : Vec K) : Vec K := ⟨(p1.x + p2.x) / 2, (p1.y + p2.y) / 2, (p1.z + p2.z) / 2⟩
+
+/-- `vect / norm(vect)` with the norm supplied as a witness -/
+def unitVec (v : Vec K) (w : K) : Vec K := ⟨v.x / w, v.y / w, v.z / w⟩
+
+/-- `functions.arc_mid` = `divide_arc(axis, center, p1, p2, 1)[0]`:
+    `center + unit_vector(secant_mid - center) * radius`; `wR` witnesses `norm(center - p1)`,
+    `ws` witnesses `norm(secant_mid - center)`.  (The `axis` argument is not used by the code.) -/
+def arcMid (C p1 p2 : Vec K) (wR ws : K) : Vec K :=
+  add C (smul wR (unitVec (sub (midPoint p1 p2) C) ws))
+
+/-! ### `arc_from_theta` -/
+
+/-- `np.sign(angle)` -/
+def sgn [LT K] [DecidableLT K] (θ : K) : K := if 0 < θ then 1 else if θ < 0 then -1 else 0
+
+/-- centre of `arc_from_theta`; `a` is the (unit) axis, `(c, s) = (cos θ/2, sin θ/2)` so that
+    `1/tan(θ/2) = c/s`; `wrm` witnesses `norm(cross(dp, axis))`, `wc` witnesses `norm(chord)`:
+    `center = pm - length*axis/2 - rm*mag_chord/2/tan(angle/2)` -/
+def thetaCentre (p1 p2 a : Vec K) (c s wrm wc : K) : Vec K :=
+  let dp := sub p2 p1
+  let pm := midPoint p1 p2
+  let rm := unitVec (cross dp a) wrm
+  let l := dot dp a
+  sub (sub pm (smul (l / 2) a)) (smul (wc / 2 * (c / s)) rm)
+
+/-- the chord of `arc_from_theta`: `dp - length*axis` -/
+def thetaChord (p1 p2 a : Vec K) : Vec K :=
+  let dp := sub p2 p1
+  sub dp (smul (dot dp a) a)
+
+/-- the written point of `arc_from_theta` (repaired code):
+    `center + length*axis/2 + sign(angle)*radius*rm`, `wR` witnesses `norm(p1 - center)` -/
+def thetaMid [LT K] [DecidableLT K] (p1 p2 a : Vec K) (θ c s wrm wc wR : K) : Vec K :=
+  let dp := sub p2 p1
+  let rm := unitVec (cross dp a) wrm
+  let l := dot dp a
+  add (add (thetaCentre p1 p2 a c s wrm wc) (smul (l / 2) a)) (smul (sgn θ * wR) rm)
+
+/-! ### `arc_from_origin` -/
+
+/-- the adjusted centre of `arc_from_origin`:
+    `0.5*(p3+p1) + (radius**2 - 0.25*norm(chord)**2)**0.5 * unit_vector(cross(axis, chord))`
+    with `axis = cross(r1, r3)`; `wh` witnesses the square root, `wac` the norm of the cross product -/
+def originNewCentre (p1 p3 C : Vec K) (wh wac : K) : Vec K :=
+  let chord := sub p3 p1
+  let axis := cross (sub p1 C) (sub p3 C)
+  add (midPoint p1 p3) (smul wh (unitVec (cross axis chord) wac))
+
+end formulas
+
+section arc3
+variable {K : Type} [Add K] [Sub K] [Mul K] [Div K] [Neg K] [OfNat K 2]
+
+/-- the centre computed by `arc_length_3point` -/
+def arc3Denom (pS pB pE : Vec K) : K :=
+  let a := sub pB pS
+  let b := sub pE pS
+  nsq a * nsq b - dot a b * dot a b
+
+def arc3Centre (pS pB pE : Vec K) : Vec K :=
+  let a := sub pB pS
+  let b := sub pE pS
+  let fact := (nsq b - dot a b) / (2 * arc3Denom pS pB pE)
+  add (add pS (unitVec a 2)) (smul fact (cross (cross a b) a))
+
+/-- the quantity whose sign decides "exterior arc" in `arc_length_3point` (and in OpenFOAM's arcEdge):
+    `dot(cross(r1, r2), cross(r1, r3))` -/
+def arc3SideTest (r1 r2 r3 : Vec K) : K := dot (cross r1 r2) (cross r1 r3)
+
+end arc3
+
+/-- `functions.polyline_length` with the segment lengths supplied as witnesses -/
+def polyLen {K : Type} [Add K] [OfNat K 0] (ds : List K) : K := ds.foldr (· + ·) 0
+
+/-! ### executable instances over `Rat`, guards, witness checks -/
+
+abbrev V := Vec Rat
+instance : Inhabited V := ⟨⟨0, 0, 0⟩⟩
+
+def absR (q : Rat) : Rat := if q < 0 then -q else q
+
+/-- `w` is accepted as a witness of `sqrt x`: non-negative and `|w² − x| ≤ eps·(1 + x)` -/
+def witOk (w x eps : Rat) : Bool := decide (0 ≤ w) && decide (absR (w * w - x) ≤ eps * (1 + x))
+
+/-- `constants.TOL` as read from the source at this run -/
+def tol : Rat := mkRat CBV.Gen.c08Tol.1 CBV.Gen.c08Tol.2
+
+/-- float image of `2*np.pi` (the bound of the guard of `arc_from_theta`) -/
+def twoPiF : Rat := mkRat 884279719003555 140737488355328
+
+/-- the guard of `arc_from_theta`: `0 < abs(angle) < 2*np.pi` -/
+def thetaGuard (θ : Rat) : Bool := decide (0 < absR θ) && decide (absR θ < twoPiF)
+
+/-! ### Float post-processing (opaque: `sqrt` as a witness oracle, `acos`) -/
+
+/-- nearest-ish double of a rational (scaled to avoid overflow of huge numerators) -/
+def ratToFloat (q : Rat) : Float :=
+  Float.ofInt (q.num * (2 : Int) ^ 90 / (q.den : Int)) / Float.ofNat (2 ^ 90)
+
+/-- exact rational value of a finite non-negative double -/
+def floatToRat (f : Float) : Rat :=
+  let (m, e) := f.frExp
+  let n : Int := ((m * Float.ofNat (2 ^ 53)).toUInt64.toNat : Int)
+  if e ≥ 53 then (n * (2 : Int) ^ (e - 53).toNat : Int) else mkRat n (2 ^ (53 - e).toNat)
+
+/-- witness oracle: a double-precision square root, as an exact rational (always re-checked with `witOk`) -/
+def sqrtQ (x : Rat) : Rat := if x ≤ 0 then 0 else floatToRat (Float.sqrt (ratToFloat x))
+
+def piF : Float := 3.141592653589793
+
+structure ThetaOut where
+  centre : V
+  mid : V
+
+/-- `AngleEdge.third_point`: `Angle.__init__` normalises the axis, then `arc_from_theta` with its guard
+    (`.error "reject"` = `ValueError`); the square roots come from the witness oracle and are checked. -/
+def arcFromTheta (p1 p2 a : V) (θ c s eps : Rat) : Except String ThetaOut :=
+  if !thetaGuard θ then .error "reject" else
+  let wa := sqrtQ (nsq a)
+  if wa = 0 then .error "badwit axis0" else
+  let au := unitVec a wa
+  let wrm := sqrtQ (nsq (cross (sub p2 p1) au))
+  let wc := sqrtQ (nsq (thetaChord p1 p2 au))
+  let C := thetaCentre p1 p2 au c s wrm wc
+  let wR := sqrtQ (nsq (sub p1 C))
+  if !witOk wa (nsq a) eps then .error "badwit axis"
+  else if !witOk wrm (nsq (cross (sub p2 p1) au)) eps then .error "badwit rm"
+  else if !witOk wc (nsq (thetaChord p1 p2 au)) eps then .error "badwit chord"
+  else if !witOk wR (nsq (sub p1 C)) eps then .error "badwit radius"
+  else .ok ⟨C, thetaMid p1 p2 au θ c s wrm wc wR⟩
+
+structure OriginOut where
+  adjusted : Bool
+  centre : V
+  mid : V
+
+/-- the radius that the adjusted branch of `arc_from_origin` aims at:
+    `0.5*(mag1+mag3)`, times the multiplier and not below `1.001*0.5*norm(chord)` when the multiplier is not 1 -/
+def originRadius (mult m1 m3 wch : Rat) : Rat :=
+  let radius0 := (1 / 2 : Rat) * (m1 + m3)
+  if mult ≠ 1 then max (radius0 * mult) ((1001 / 1000 : Rat) * (1 / 2) * wch) else radius0
+
+/-- `arc_from_origin(p1, p3, center, adjust_center=True, r_multiplier)`:
+    `needs_adjust = abs(mag1 - mag3) > TOL`, or always when the multiplier is not 1; the adjusted call
+    recurses once with `adjust_center=False`. -/
+def originArc (p1 p3 C : V) (mult eps : Rat) : Except String OriginOut :=
+  let chord := sub p3 p1
+  let m1 := sqrtQ (nsq (sub p1 C))
+  let m3 := sqrtQ (nsq (sub p3 C))
+  let wch := sqrtQ (nsq chord)
+  if !witOk m1 (nsq (sub p1 C)) eps then .error "badwit mag1"
+  else if !witOk m3 (nsq (sub p3 C)) eps then .error "badwit mag3"
+  else if !witOk wch (nsq chord) eps then .error "badwit chord"
+  else
+    let needs := decide (absR (m1 - m3) > tol) || decide (mult ≠ 1)
+    if needs then
+      let radius := originRadius mult m1 m3 wch
+      let h2 := radius * radius - (1 / 4 : Rat) * (wch * wch)
+      if h2 < 0 then .error "nan" else   -- python: a negative number to the power 0.5 is complex / nan
+      let wh := sqrtQ h2
+      let axc := cross (cross (sub p1 C) (sub p3 C)) chord
+      let wac := sqrtQ (nsq axc)
+      if wac = 0 then .error "nan" else
+      let C' := originNewCentre p1 p3 C wh wac
+      let wR := sqrtQ (nsq (sub C' p1))
+      let ws := sqrtQ (nsq (sub (midPoint p1 p3) C'))
+      if !witOk wh h2 eps then .error "badwit height"
+      else if !witOk wac (nsq axc) eps then .error "badwit axc"
+      else if !witOk wR (nsq (sub C' p1)) eps then .error "badwit radius"
+      else if !witOk ws (nsq (sub (midPoint p1 p3) C')) eps then .error "badwit secant"
+      else if ws = 0 then .error "nan"
+      else .ok ⟨true, C', arcMid C' p1 p3 wR ws⟩
+    else
+      let wR := sqrtQ (nsq (sub C p1))
+      let ws := sqrtQ (nsq (sub (midPoint p1 p3) C))
+      if !witOk wR (nsq (sub C p1)) eps then .error "badwit radius"
+      else if !witOk ws (nsq (sub (midPoint p1 p3) C)) eps then .error "badwit secant"
+      else if ws = 0 then .error "nan"
+      else .ok ⟨false, C, arcMid C p1 p3 wR ws⟩
+
+structure Arc3Out where
+  centre : V
+  cos : Float
+  exterior : Bool
+  length : Float
+
+/-- `arc_length_3point`; `none` = `ValueError("Invalid arc points!")` (`|denom| < 1e-18`).
+    Exact part: centre, radius vectors, the sign test; Float part: the two norms, `acos`, the product. -/
+def arc3 (pS pB pE : V) : Option Arc3Out :=
+  let denom := arc3Denom pS pB pE
+  if absR denom < mkRat 1 (10 ^ 18) then none
+  else
+    let centre := arc3Centre pS pB pE
+    let r1 := sub pS centre
+    let r2 := sub pB centre
+    let r3 := sub pE centre
+    let mag1 := Float.sqrt (ratToFloat (nsq r1))
+    let mag3 := Float.sqrt (ratToFloat (nsq r3))
+    let cosv := ratToFloat (dot r1 r3) / (mag1 * mag3)
+    let ext := decide (arc3SideTest r1 r2 r3 < 0)
+    let cosv := if cosv < -1.0 then -1.0 else if cosv > 1.0 then 1.0 else cosv   -- `np.clip(…, -1.0, 1.0)`
+    let ang := Float.acos cosv
+    let ang := if ext then 2 * piF - ang else ang
+    some ⟨centre, cosv, ext, ang * mag3⟩
+
+/-! ### validators: exact predicates over `Rat` with an explicit tolerance -/
+
+/-- `M` is the middle of the arc about `C` from `p1` to `p2` in the plane with normal `n`, on the side of `g`:
+    on the circle, equidistant from the ends, in the plane, on the side (each within `eps`, scaled by the
+    squared radius `R2`).  Returns the first failing clause. -/
+def onArcMidApprox (p1 p2 C n g M : V) (eps : Rat) : Option String :=
+  let R2 := nsq (sub p1 C)
+  let w := sub M C
+  if absR (nsq w - R2) > eps * R2 then some "circle"
+  else if absR (nsq (sub M p1) - nsq (sub M p2)) > eps * R2 then some "equidistant"
+  else if absR (dot w n) * absR (dot w n) > eps * eps * R2 * nsq n then some "plane"
+  else if ¬ (dot w g > 0) then some "side"
+  else none
+
+/-! ### line protocol -/
+
+def parseVec? (s : String) : Option V := (parseV3? s).map (fun v => ⟨v.x, v.y, v.z⟩)
+def showVec (v : V) : String := s!"{showRat v.x},{showRat v.y},{showRat v.z}"
+
+def parseVecs? (s : String) : Option (List V) := (s.splitOn ";").mapM parseVec?
+
+/-- `c08.theta θ p1 p2 axis c s eps` → `ok C M` | `reject` | `badwit <which>` -/
+def handleTheta (args : List String) : Option String :=
+  match args with
+  | [θ, p1, p2, a, c, s, eps] => do
+      let θ ← parseRat? θ; let p1 ← parseVec? p1; let p2 ← parseVec? p2; let a ← parseVec? a
+      let c ← parseRat? c; let s ← parseRat? s; let eps ← parseRat? eps
+      if thetaGuard θ && (s = 0 || absR (c * c + s * s - 1) > eps) then some "badwit cs"
+      else
+        match arcFromTheta p1 p2 a θ c s eps with
+        | .error e => some e
+        | .ok o => some s!"ok {showVec o.centre} {showVec o.mid}"
+  | _ => none
+
+/-- `c08.origin p1 p3 C mult eps` → `ok <adjusted 0|1> C' M` | `nan` | `badwit <which>` -/
+def handleOrigin (args : List String) : Option String :=
+  match args with
+  | [p1, p3, C, mult, eps] => do
+      let p1 ← parseVec? p1; let p3 ← parseVec? p3; let C ← parseVec? C
+      let mult ← parseRat? mult; let eps ← parseRat? eps
+      match originArc p1 p3 C mult eps with
+      | .error e => some e
+      | .ok o => some s!"ok {if o.adjusted then 1 else 0} {showVec o.centre} {showVec o.mid}"
+  | _ => none
+
+/-- `c08.arc3 pS pB pE` → `ok centre <ext 0|1> <cos bits> <length bits>` | `reject` -/
+def handleArc3 (args : List String) : Option String :=
+  match args with
+  | [pS, pB, pE] => do
+      let pS ← parseVec? pS; let pB ← parseVec? pB; let pE ← parseVec? pE
+      match arc3 pS pB pE with
+      | none => some "reject"
+      | some o => some s!"ok {showVec o.centre} {if o.exterior then 1 else 0} {o.cos.toBits} {o.length.toBits}"
+  | _ => none
+
+/-- `c08.vmid p1 p2 C n g M eps` → `ok` | `fail <clause>` (validator on the implementation's point) -/
+def handleVmid (args : List String) : Option String :=
+  match args with
+  | [p1, p2, C, n, g, M, eps] => do
+      let p1 ← parseVec? p1; let p2 ← parseVec? p2; let C ← parseVec? C; let n ← parseVec? n
+      let g ← parseVec? g; let M ← parseVec? M; let eps ← parseRat? eps
+      some (match onArcMidApprox p1 p2 C n g M eps with | none => "ok" | some cl => "fail " ++ cl)
+  | _ => none
+
+/-- `c08.poly p0;p1;…;pn eps` → `ok <sum of the segment witnesses> <squared chord>` | `badwit i` | `reject` (fewer than 2 points) -/
+def handlePoly (args : List String) : Option String :=
+  match args with
+  | [pts, eps] => do
+      let pts ← parseVecs? pts; let eps ← parseRat? eps
+      if pts.length < 2 then some "reject"
+      else
+        let segs := pts.zip pts.tail
+        let ds := segs.map (fun (p, q) => sqrtQ (nsq (sub p q)))
+        match (segs.zip ds).findIdx? (fun ((p, q), d) => !witOk d (nsq (sub p q)) eps) with
+        | some i => some s!"badwit {i}"
+        | none =>
+            let first := pts.head!
+            let last := pts.getLast!
+            some s!"ok {showRat (polyLen ds)} {showRat (nsq (sub first last))}"
+  | _ => none
+
+def handle (op : String) (args : List String) : Option String :=
+  match op with
+  | "c08.theta" => handleTheta args
+  | "c08.origin" => handleOrigin args
+  | "c08.arc3" => handleArc3 args
+  | "c08.vmid" => handleVmid args
+  | "c08.poly" => handlePoly args
+  | _ => none
 
 end CBV.C08
